@@ -774,8 +774,35 @@ End Monotone.
 
 
 (* ---------------- (e) Brent's loop, for an arbitrary function f ---------------- *)
-Lemma three_R : three R RS = 3.
-Proof. unfold three. cbn [sconst RS ROps]. rewrite Rpower_O by lra. lra. Qed.
+(* ---- the loop logic (Brent, Newton, star state) does not depend on what std::pow computes: it is proved for the
+   scalar operations of ROps 0 1 with an ARBITRARY pow function pw.  pw := Rpower gives RS; pw := cpow is Rpower
+   with the C value pow(0, y) = 0 for y > 0, which is what the pressure function sees at the lower end P = 0 of the
+   first Brent bracket (Coq's Rpower 0 y is 1). ---- *)
+Definition RSpw (pw : R -> R -> R) : SOps R := {|
+  s0 := 0; s1 := 1; s2 := 2; shalf := 1 / 2; squarter := 1 / 4;
+  sadd := Rplus; ssub := Rminus; smul := Rmult; sdiv := Rdiv; sneg := Ropp;
+  ssqrt := sqrt; spow := pw; sabs := Rabs;
+  sltb := Rltb; sleb := Rleb; seqb := Reqb;
+  sisinf := fun _ => false;
+  sdblmin := 0; sgamma_floor := 1;
+  sconst := fun m e => IZR m * Rpower 10 (IZR e);
+|}.
+Lemma RSpw_Rpower : RSpw Rpower = RS.
+Proof. reflexivity. Qed.
+Definition cpow (x y : R) : R := if Req_EM_T x 0 then (if Rlt_dec 0 y then 0 else Rpower x y) else Rpower x y.
+Lemma cpow_pos x y : 0 < x -> cpow x y = Rpower x y.
+Proof. intros H. unfold cpow. destruct (Req_EM_T x 0); [lra | reflexivity]. Qed.
+Lemma cpow_0 y : 0 < y -> cpow 0 y = 0.
+Proof. intros H. unfold cpow. destruct (Req_EM_T 0 0); [| contradiction]. destruct (Rlt_dec 0 y); [reflexivity | contradiction]. Qed.
+
+Ltac ropsx := cbn [sadd ssub smul sdiv sneg ssqrt spow sabs sltb sleb seqb sisinf s0 s1 s2 shalf squarter RSpw
+                   cb gm1d2g ginv gam tdgm1 gp1d2g odgm1 gm1d2 gm1dgp1 tgdgm1 tdgp1 rconsts].
+
+Section AnyPow.
+Variable pw : R -> R -> R.
+
+Lemma three_R : three R (RSpw pw) = 3.
+Proof. unfold three. cbn [sconst RSpw]. rewrite Rpower_O by lra. lra. Qed.
 
 Section Brent.
   Variable f : R -> R.
@@ -786,10 +813,10 @@ Section Brent.
 
   Lemma swap_inv lo hi a b c_ d fc m :
     lo <= a <= hi -> lo <= b <= hi -> f a * f b <= 0 ->
-    forall a2 b2 fa2 fb2, brent_swap R RS a b (f a) (f b) = (a2, b2, fa2, fb2) ->
+    forall a2 b2 fa2 fb2, brent_swap R (RSpw pw) a b (f a) (f b) = (a2, b2, fa2, fb2) ->
     binv lo hi (mkB R a2 b2 c_ d fa2 fb2 fc m).
   Proof.
-    intros Ha Hb Hs a2 b2 fa2 fb2. unfold brent_swap. rops.
+    intros Ha Hb Hs a2 b2 fa2 fb2. unfold brent_swap. ropsx.
     destruct (Rltb (Rabs (f a)) (Rabs (f b))) eqn:E; intros Q; inversion Q; subst; unfold binv; cbn [ba bb bfa bfb].
     - apply Rltb_true in E. repeat split; try lra.
     - apply Rltb_false in E. repeat split; try lra.
@@ -798,12 +825,12 @@ Section Brent.
   (* the trial point lies between a and b: either the interpolated value was accepted, which requires it to lie
      strictly between (3a+b)/4 and b, or it is the midpoint *)
   Lemma trial_in_hull a b c_ d s0 m :
-    let s := if brent_reject R RS a b c_ d s0 m then shalf RS * (a + b) else s0 in
+    let s := if brent_reject R (RSpw pw) a b c_ d s0 m then shalf (RSpw pw) * (a + b) else s0 in
     Rmin a b <= s <= Rmax a b.
   Proof.
-    cbv zeta. destruct (brent_reject R RS a b c_ d s0 m) eqn:E.
-    - rops. unfold Rmin, Rmax. destruct (Rle_dec a b); lra.
-    - unfold brent_reject in E. rewrite three_R in E. revert E. rops. intros E.
+    cbv zeta. destruct (brent_reject R (RSpw pw) a b c_ d s0 m) eqn:E.
+    - ropsx. unfold Rmin, Rmax. destruct (Rle_dec a b); lra.
+    - unfold brent_reject in E. rewrite three_R in E. revert E. ropsx. intros E.
       repeat (apply orb_false_iff in E; destruct E as [E ?]).
       apply negb_false_iff in E. apply orb_true_iff in E.
       unfold Rmin, Rmax.
@@ -811,23 +838,23 @@ Section Brent.
         destruct (Rle_dec a b); lra.
   Qed.
 
-  Lemma step_inv lo hi st : binv lo hi st -> bfb R st <> 0 -> binv lo hi (brent_step R RS f st).
+  Lemma step_inv lo hi st : binv lo hi st -> bfb R st <> 0 -> binv lo hi (brent_step R (RSpw pw) f st).
   Proof.
     destruct st as [a b c_ d fa fb_ fc m]. intros Hi Hnz. unfold binv in Hi. cbn [ba bb bfa bfb] in Hi, Hnz.
     destruct Hi as (Ha & Hb & Efa & Efb & Hs & Habs). subst fa fb_.
-    unfold brent_step. rops.
-    set (s0 := brent_interp R RS a b c_ (f a) (f b) fc).
-    assert (Hull := trial_in_hull a b c_ d s0 m). cbv zeta in Hull. cbn [shalf smul sadd RS ROps] in Hull.
-    set (rej := brent_reject R RS a b c_ d s0 m) in *.
+    unfold brent_step. ropsx.
+    set (s0 := brent_interp R (RSpw pw) a b c_ (f a) (f b) fc).
+    assert (Hull := trial_in_hull a b c_ d s0 m). cbv zeta in Hull. cbn [shalf smul sadd RSpw] in Hull.
+    set (rej := brent_reject R (RSpw pw) a b c_ d s0 m) in *.
     set (s := if rej then 1 / 2 * (a + b) else s0) in *.
     assert (Hs_in : lo <= s <= hi).
     { revert Hull. unfold Rmin, Rmax. destruct (Rle_dec a b); lra. }
     destruct (Rltb (f a * f s) 0) eqn:E.
     - apply Rltb_true in E.
-      destruct (brent_swap R RS a s (f a) (f s)) as [[[a2 b2] fa2] fb2] eqn:Q.
+      destruct (brent_swap R (RSpw pw) a s (f a) (f s)) as [[[a2 b2] fa2] fb2] eqn:Q.
       apply (swap_inv lo hi a s b c_ (f b) rej) in Q; try assumption; try lra.
     - apply Rltb_false in E.
-      destruct (brent_swap R RS s b (f s) (f b)) as [[[a2 b2] fa2] fb2] eqn:Q.
+      destruct (brent_swap R (RSpw pw) s b (f s) (f b)) as [[[a2 b2] fa2] fb2] eqn:Q.
       apply (swap_inv lo hi s b b c_ (f b) rej) in Q; try assumption.
       (* f a and f s do not have opposite signs, f a and f b do, and f a <> 0 because |f b| <= |f a|, f b <> 0 *)
       assert (Hfa : f a <> 0).
@@ -836,27 +863,27 @@ Section Brent.
       destruct (Rtotal_order (f a) 0) as [N | [N | N]]; [| contradiction |]; nra.
   Qed.
 
-  Lemma cont_true_nz st : brent_cont R RS st = true -> bfb R st <> 0.
+  Lemma cont_true_nz st : brent_cont R (RSpw pw) st = true -> bfb R st <> 0.
   Proof.
-    unfold brent_cont. rops. intros E. apply andb_true_iff in E. destruct E as [E _].
+    unfold brent_cont. ropsx. intros E. apply andb_true_iff in E. destruct E as [E _].
     apply negb_true_iff in E. apply Reqb_false in E. exact E.
   Qed.
 
-  Lemma cont_false_exit st : brent_cont R RS st = false ->
-    bfb R st = 0 \/ Rabs (ba R st - bb R st) <= tol R RS * (ba R st + bb R st).
+  Lemma cont_false_exit st : brent_cont R (RSpw pw) st = false ->
+    bfb R st = 0 \/ Rabs (ba R st - bb R st) <= tol R (RSpw pw) * (ba R st + bb R st).
   Proof.
-    unfold brent_cont. rops. intros E. apply andb_false_iff in E. destruct E as [E | E].
+    unfold brent_cont. ropsx. intros E. apply andb_false_iff in E. destruct E as [E | E].
     - left. apply negb_false_iff in E. apply Reqb_true in E. exact E.
     - right. apply Rltb_false in E. exact E.
   Qed.
 
   Lemma loop_inv lo hi fuel : forall st n st' n' hit, binv lo hi st ->
-    brent_loop R RS f fuel st n = (st', n', hit) ->
-    binv lo hi st' /\ (hit = false -> brent_cont R RS st' = false).
+    brent_loop R (RSpw pw) f fuel st n = (st', n', hit) ->
+    binv lo hi st' /\ (hit = false -> brent_cont R (RSpw pw) st' = false).
   Proof.
     induction fuel as [| k IH]; intros st n st' n' hit Hi; cbn [brent_loop].
-    - destruct (brent_cont R RS st) eqn:E; intros Q; inversion Q; subst; split; auto; discriminate.
-    - destruct (brent_cont R RS st) eqn:E.
+    - destruct (brent_cont R (RSpw pw) st) eqn:E; intros Q; inversion Q; subst; split; auto; discriminate.
+    - destruct (brent_cont R (RSpw pw) st) eqn:E.
       + intros Q. apply IH in Q; [exact Q|]. apply step_inv; [exact Hi | apply cont_true_nz; exact E].
       + intros Q; inversion Q; subst; split; auto.
   Qed.
@@ -864,15 +891,15 @@ Section Brent.
   (* solve_brent: every value it can return lies in the initial bracket, the final pair (a, b) still brackets a sign
      change, and unless the iteration bound was hit either f(b) = 0 or |a - b| <= 5e-9 (a + b) *)
   Lemma solve_brent_spec fuel Plow Phigh bs n hit :
-    solve_brent R RS f fuel Plow Phigh (f Plow) (f Phigh) = Some (bs, n, hit) ->
+    solve_brent R (RSpw pw) f fuel Plow Phigh (f Plow) (f Phigh) = Some (bs, n, hit) ->
     binv (Rmin Plow Phigh) (Rmax Plow Phigh) bs /\
-    (hit = false -> bfb R bs = 0 \/ Rabs (ba R bs - bb R bs) <= tol R RS * (ba R bs + bb R bs)).
+    (hit = false -> bfb R bs = 0 \/ Rabs (ba R bs - bb R bs) <= tol R (RSpw pw) * (ba R bs + bb R bs)).
   Proof.
-    unfold solve_brent. rops. destruct (Rltb 0 (f Plow * f Phigh)) eqn:E; [discriminate|].
+    unfold solve_brent. ropsx. destruct (Rltb 0 (f Plow * f Phigh)) eqn:E; [discriminate|].
     apply Rltb_false in E. intros Q. inversion Q as [Q']. clear Q.
-    assert (Hi : binv (Rmin Plow Phigh) (Rmax Plow Phigh) (brent_init R RS Plow Phigh (f Plow) (f Phigh))).
-    { unfold brent_init. destruct (brent_swap R RS Plow Phigh (f Plow) (f Phigh)) as [[[a2 b2] fa2] fb2] eqn:Qs.
-      apply (swap_inv (Rmin Plow Phigh) (Rmax Plow Phigh)) with (c_ := a2) (d := big R RS) (fc := fa2) (m := true) in Qs;
+    assert (Hi : binv (Rmin Plow Phigh) (Rmax Plow Phigh) (brent_init R (RSpw pw) Plow Phigh (f Plow) (f Phigh))).
+    { unfold brent_init. destruct (brent_swap R (RSpw pw) Plow Phigh (f Plow) (f Phigh)) as [[[a2 b2] fa2] fb2] eqn:Qs.
+      apply (swap_inv (Rmin Plow Phigh) (Rmax Plow Phigh)) with (c_ := a2) (d := big R (RSpw pw)) (fc := fa2) (m := true) in Qs;
         [exact Qs | | | assumption].
       - split; [apply Rmin_l | apply Rmax_l].
       - split; [apply Rmin_r | apply Rmax_r]. }
@@ -891,9 +918,9 @@ Section Brent.
 
   Lemma solve_brent_accuracy fuel Plow Phigh bs n :
     continuity f ->
-    solve_brent R RS f fuel Plow Phigh (f Plow) (f Phigh) = Some (bs, n, false) ->
+    solve_brent R (RSpw pw) f fuel Plow Phigh (f Plow) (f Phigh) = Some (bs, n, false) ->
     exists z, f z = 0 /\ Rmin Plow Phigh <= z <= Rmax Plow Phigh /\
-              Rabs (z - bb R bs) <= tol R RS * (ba R bs + bb R bs) \/ (f (bb R bs) = 0).
+              Rabs (z - bb R bs) <= tol R (RSpw pw) * (ba R bs + bb R bs) \/ (f (bb R bs) = 0).
   Proof.
     intros Hc Q. apply solve_brent_spec in Q. destruct Q as [(Ha & Hb & Efa & Efb & Hs & Habs) X].
     destruct (X eq_refl) as [Z | Z].
@@ -909,8 +936,8 @@ Section Brent.
 End Brent.
 
 
-Lemma tol_pos : 0 < tol R RS.
-Proof. unfold tol. cbn [sconst RS ROps]. apply Rmult_lt_0_compat; [lra | apply Rpower_pos]. Qed.
+Lemma tol_pos_pw : 0 < tol R (RSpw pw).
+Proof. unfold tol. cbn [sconst RSpw]. apply Rmult_lt_0_compat; [lra | apply Rpower_pos]. Qed.
 
 (* ---------------- Newton loop: what holds when it stops ---------------- *)
 Section Newton.
@@ -918,17 +945,17 @@ Section Newton.
 
   Lemma newton_loop_spec fuel : forall Pstar fPstar Pguess fPguess n Ps' fPs' Pg' fPg' n',
     fPstar = f Pstar -> fPguess = f Pguess ->
-    newton_loop R RS f fp fuel Pstar fPstar Pguess fPguess n = Some (Ps', fPs', Pg', fPg', n') ->
+    newton_loop R (RSpw pw) f fp fuel Pstar fPstar Pguess fPguess n = Some (Ps', fPs', Pg', fPg', n') ->
     fPs' = f Ps' /\ fPg' = f Pg' /\
-    (Rabs (Ps' - Pg') <= tol R RS * (Ps' + Pg') \/ 0 <= f Pg').
+    (Rabs (Ps' - Pg') <= tol R (RSpw pw) * (Ps' + Pg') \/ 0 <= f Pg').
   Proof.
     induction fuel as [| k IH]; intros Pstar fPstar Pguess fPguess n Ps' fPs' Pg' fPg' n' E1 E2; cbn [newton_loop];
-      destruct (newton_cont R RS Pstar Pguess fPguess) eqn:C; try discriminate.
+      destruct (newton_cont R (RSpw pw) Pstar Pguess fPguess) eqn:C; try discriminate.
     - intros Q. inversion Q; subst. split; [reflexivity|]. split; [reflexivity|].
-      unfold newton_cont in C. revert C. rops. intros C. apply andb_false_iff in C. destruct C as [C | C]; apply Rltb_false in C; [left | right]; lra.
+      unfold newton_cont in C. revert C. ropsx. intros C. apply andb_false_iff in C. destruct C as [C | C]; apply Rltb_false in C; [left | right]; lra.
     - intros Q. apply IH in Q; [exact Q | exact E2 | reflexivity].
     - intros Q. inversion Q; subst. split; [reflexivity|]. split; [reflexivity|].
-      unfold newton_cont in C. revert C. rops. intros C. apply andb_false_iff in C. destruct C as [C | C]; apply Rltb_false in C; [left | right]; lra.
+      unfold newton_cont in C. revert C. ropsx. intros C. apply andb_false_iff in C. destruct C as [C | C]; apply Rltb_false in C; [left | right]; lra.
   Qed.
 End Newton.
 
@@ -936,59 +963,65 @@ End Newton.
 Section Star.
   Variables g rhoL uL PL rhoR uR PR : R.
   Let c := rconsts g.
-  Let aL := soundspeed R RS c (1 / rhoL) PL.
-  Let aR := soundspeed R RS c (1 / rhoR) PR.
-  Let fL := fb R RS c PL (tdgp1 R (cb R c) * (1 / rhoL)) (gm1dgp1 R (cb R c) * PL) (1 / PL) (tdgm1 R (cb R c) * aL).
-  Let fR := fb R RS c PR (tdgp1 R (cb R c) * (1 / rhoR)) (gm1dgp1 R (cb R c) * PR) (1 / PR) (tdgm1 R (cb R c) * aR).
+  Let aL := soundspeed R (RSpw pw) c (1 / rhoL) PL.
+  Let aR := soundspeed R (RSpw pw) c (1 / rhoR) PR.
+  Let fL := fb R (RSpw pw) c PL (tdgp1 R (cb R c) * (1 / rhoL)) (gm1dgp1 R (cb R c) * PL) (1 / PL) (tdgm1 R (cb R c) * aL).
+  Let fR := fb R (RSpw pw) c PR (tdgp1 R (cb R c) * (1 / rhoR)) (gm1dgp1 R (cb R c) * PR) (1 / PR) (tdgm1 R (cb R c) * aR).
   (* the pressure function of this Riemann problem *)
-  Definition pressure_function (p : R) : R := fL p + fR p + (uR - uL).
+  Definition pressure_function_pw (p : R) : R := fL p + fR p + (uR - uL).
 
   Lemma pressure_function_eq p :
-    ff R RS c PL (tdgp1 R (cb R c) * (1 / rhoL)) (gm1dgp1 R (cb R c) * PL) (1 / PL) (tdgm1 R (cb R c) * aL)
+    ff R (RSpw pw) c PL (tdgp1 R (cb R c) * (1 / rhoL)) (gm1dgp1 R (cb R c) * PL) (1 / PL) (tdgm1 R (cb R c) * aL)
               PR (tdgp1 R (cb R c) * (1 / rhoR)) (gm1dgp1 R (cb R c) * PR) (1 / PR) (tdgm1 R (cb R c) * aR) (uR - uL) p
-    = pressure_function p.
+    = pressure_function_pw p.
   Proof. reflexivity. Qed.
 
   (* the star velocity splits the residual of the pressure equation evenly between the two one-sided values *)
   Lemma ustar_residual p :
     let ustar := 1 / 2 * ((uL + uR) + (fR p - fL p)) in
-    ustar - (uL - fL p) = 1 / 2 * pressure_function p /\ (uR + fR p) - ustar = 1 / 2 * pressure_function p.
-  Proof. cbv zeta. unfold pressure_function. split; field. Qed.
+    ustar - (uL - fL p) = 1 / 2 * pressure_function_pw p /\ (uR + fR p) - ustar = 1 / 2 * pressure_function_pw p.
+  Proof. cbv zeta. unfold pressure_function_pw. split; field. Qed.
 
   Lemma star_state_spec nfuel bfuel :
-    let st := star_state R RS c nfuel bfuel rhoL uL PL rhoR uR PR in
+    let st := star_state R (RSpw pw) c nfuel bfuel rhoL uL PL rhoR uR PR in
     (st_code R st = 2%Z \/ st_code R st = 3%Z) ->
     st_u R st = 1 / 2 * ((uL + uR) + (fR (st_P R st) - fL (st_P R st))) /\
     (st_code R st = 3%Z -> st_brent_bound_hit R st = false ->
      exists a lo hi, lo <= a <= hi /\ lo <= st_P R st <= hi /\
-       pressure_function a * pressure_function (st_P R st) <= 0 /\
-       Rabs (pressure_function (st_P R st)) <= Rabs (pressure_function a) /\
-       (pressure_function (st_P R st) = 0 \/ Rabs (a - st_P R st) <= tol R RS * (a + st_P R st))).
+       pressure_function_pw a * pressure_function_pw (st_P R st) <= 0 /\
+       Rabs (pressure_function_pw (st_P R st)) <= Rabs (pressure_function_pw a) /\
+       (pressure_function_pw (st_P R st) = 0 \/ Rabs (a - st_P R st) <= tol R (RSpw pw) * (a + st_P R st))).
   Proof.
     unfold star_state. cbv zeta.
     fold c. fold aL. fold aR.
-    set (f := ff R RS c PL _ _ _ _ PR _ _ _ _ _).
-    set (fp := fprime R RS c PL _ _ _ _ PR _ _ _ _).
+    set (f := ff R (RSpw pw) c PL _ _ _ _ PR _ _ _ _ _).
+    set (fp := fprime R (RSpw pw) c PL _ _ _ _ PR _ _ _ _).
     destruct (guess_P_b _ _ _ _ _ _ _ _ _ _ _ _) as [Pguess0 gbr].
     match goal with |- context [match ?X with Some _ => _ | None => _ end] => destruct X as [[[[[Pstar1 fPstar1] Pguess1] fPguess1] nn] |] eqn:NW end.
     2: { cbn [st_code]. intros [H | H]; discriminate. }
-    assert (Hv : fPstar1 = f Pstar1 /\ fPguess1 = f Pguess1 /\ (Pstar1 = s0 RS \/ True)).
-    { revert NW. destruct (sleb RS (s0 RS) (smul RS (f (s0 RS)) (f Pguess0))).
+    assert (Hv : fPstar1 = f Pstar1 /\ fPguess1 = f Pguess1 /\ (Pstar1 = s0 (RSpw pw) \/ True)).
+    { revert NW. destruct (sleb (RSpw pw) (s0 (RSpw pw)) (smul (RSpw pw) (f (s0 (RSpw pw))) (f Pguess0))).
       - intros NW. apply newton_loop_spec in NW; try reflexivity. destruct NW as (E1 & E2 & _). repeat split; auto.
       - intros NW. inversion NW; subst. repeat split; auto. }
     destruct Hv as (E1 & E2 & _). subst fPstar1 fPguess1.
-    destruct (sltb RS (smul RS (tol R RS) (sadd RS Pstar1 Pguess1)) (sabs RS (ssub RS Pstar1 Pguess1)) && sltb RS (s0 RS) (f Pguess1)) eqn:UseBrent.
-    - destruct (solve_brent R RS f bfuel Pstar1 Pguess1 (f Pstar1) (f Pguess1)) as [[[bs nb] hit] |] eqn:SB.
+    destruct (sltb (RSpw pw) (smul (RSpw pw) (tol R (RSpw pw)) (sadd (RSpw pw) Pstar1 Pguess1)) (sabs (RSpw pw) (ssub (RSpw pw) Pstar1 Pguess1)) && sltb (RSpw pw) (s0 (RSpw pw)) (f Pguess1)) eqn:UseBrent.
+    - destruct (solve_brent R (RSpw pw) f bfuel Pstar1 Pguess1 (f Pstar1) (f Pguess1)) as [[[bs nb] hit] |] eqn:SB.
       2: { cbn [st_code]. intros [H | H]; discriminate. }
-      cbn [sisinf RS ROps orb st_code st_u st_P st_brent_bound_hit]. intros _. split; [reflexivity|].
+      cbn [sisinf RSpw orb st_code st_u st_P st_brent_bound_hit]. intros _. split; [reflexivity|].
       intros _ Hh. subst hit.
       apply solve_brent_spec in SB. destruct SB as [(Ha & Hb & Efa & Efb & Hs & Habs) X].
       specialize (X eq_refl). rewrite Efa, Efb in Hs, Habs. rewrite Efb in X.
       exists (ba R bs), (Rmin Pstar1 Pguess1), (Rmax Pstar1 Pguess1).
       split; [exact Ha|]. split; [exact Hb|]. split; [exact Hs|]. split; [exact Habs|]. exact X.
-    - cbn [sisinf RS ROps orb st_code st_u st_P st_brent_bound_hit]. intros _. split; [reflexivity|]. intros H; discriminate.
+    - cbn [sisinf RSpw orb st_code st_u st_P st_brent_bound_hit]. intros _. split; [reflexivity|]. intros H; discriminate.
   Qed.
 End Star.
+End AnyPow.
+
+(* the instances for pw := Rpower, under the names used below *)
+Definition pressure_function := pressure_function_pw Rpower.
+Lemma tol_pos : 0 < tol R RS. Proof. exact (tol_pos_pw Rpower). Qed.
+
 
 
 (* ---------------- statements about the samplers as the code calls them ---------------- *)
